@@ -109,6 +109,25 @@ void run_C03(vh::Ctx& c) {
       if (!same_bits_su(X1, E)) c.violation(vh::fmt("C03:evolve:d%d:in-place-differs", d), "X = X.Evolve(H,t) differs from Y = X.Evolve(H,t)");
       if (!same_bits_su(X2, F)) c.violation(vh::fmt("C03:twostep:d%d:in-place-differs", d), "X = X.Evolve(table) differs from Y = X.Evolve(table)");
     }
+    // state and/or operator given as unevaluated expressions (every Evolve member of the expression type), and the
+    // state on user-supplied storage: the same bits as with evaluated, owning vectors
+    {
+      Vec h2 = gen_H(r, d, r.pick(NH));
+      SU_vector H2 = make(h2), S = A + B, HS = H + H2;
+      SU_vector want = S.Evolve(HS, t);
+      c.eval(4); c.count("expression_operand_forms", 4);
+      if (!same_bits_su((A + B).Evolve(HS, t), want)) c.violation(vh::fmt("C03:evolve:d%d:expression-as-state-differs", d), "(A+B).Evolve(H,t) differs from S.Evolve(H,t) with S=A+B");
+      if (!same_bits_su(S.Evolve(H + H2, t), want)) c.violation(vh::fmt("C03:evolve:d%d:expression-as-operator-differs", d), "S.Evolve(H1+H2,t) differs from S.Evolve(H,t) with H=H1+H2");
+      if (!same_bits_su((A + B).Evolve(H + H2, t), want)) c.violation(vh::fmt("C03:evolve:d%d:expressions-as-state-and-operator-differ", d), "(A+B).Evolve(H1+H2,t) differs from S.Evolve(H,t)");
+      if (!same_bits_su((A - B).Evolve(H - H2, t), SU_vector(A - B).Evolve(SU_vector(H - H2), t))) c.violation(vh::fmt("C03:evolve:d%d:expressions-as-state-and-operator-differ", d), "(A-B).Evolve(H1-H2,t)");
+      ExtVec EA(a, d), EH(h, d);
+      c.eval(3); c.count("user_storage_forms", 3);
+      if (!same_bits_su(EA.v.Evolve(H, t), E)) c.violation(vh::fmt("C03:evolve:d%d:differs-for-a-state-on-user-storage", d), "direct form");
+      if (!same_bits_su(A.Evolve(EH.v, t), E)) c.violation(vh::fmt("C03:evolve:d%d:differs-for-an-operator-on-user-storage", d), "direct form");
+      if (!same_bits_su(EA.v.Evolve(buf), F)) c.violation(vh::fmt("C03:twostep:d%d:differs-for-a-state-on-user-storage", d), "two-step form");
+      { ExtVec X(a, d); X.v = X.v.Evolve(H, t); if (!same_bits_su(X.v, E) || !X.bound()) c.violation(vh::fmt("C03:evolve:d%d:in-place-differs", d), "X = X.Evolve(H,t) on user storage"); }
+      if (!EA.bound() || EA.image() != a || EH.image() != h) c.violation("C03:operand-modified", "vector on user storage changed or rebound");
+    }
     free(buf);
     // group law
     {
